@@ -56,7 +56,8 @@ struct DynPorts : rtosc::Ports {
     void add(const char *name, const char *meta, const rtosc::Ports *sub = NULL) {
         ports.push_back(rtosc::Port{name, meta, sub, [](const char *, rtosc::RtData &) {}});
     }
-    void done() { refreshMagic(); }
+    // no refreshMagic(): the hash tables serve Ports::dispatch only; apropos (all the automation code
+    // uses) walks the port vector, and building the tables for 100-character names costs milliseconds
 };
 
 bool name_ok(const std::string &s) {
@@ -169,13 +170,11 @@ static std::string step(const std::string &line) {
     dirnames.reserve(sub.size());
     DynPorts ports;
     for (auto &kvp : sub) {
-        kvp.second->done();
         dirnames.push_back(kvp.first + "/");
         ports.add(dirnames.back().c_str(), "", kvp.second.get());
     }
     for (size_t k = 0; k < names.size(); ++k)
         if (dirs[k].empty()) ports.add(names[k].c_str(), metas[k].data());
-    ports.done();
 
     rtosc::AutomationMgr *mgr = new rtosc::AutomationMgr(nslots, per_slot, 4);
     mgr->set_ports(ports);
